@@ -27,6 +27,7 @@ def main():
     mods = None
     runs = "640"
     detect = True
+    also = []
     i = 6
     while i < len(a):
         if a[i] == "--mods":
@@ -35,6 +36,8 @@ def main():
             runs = a[i + 1]; i += 2
         elif a[i] == "--no-detect":
             detect = False; i += 1
+        elif a[i] == "--also":
+            also = a[i + 1].split(","); i += 2
         else:
             i += 1
     patch = os.path.join(src, "patch.diff")
@@ -90,6 +93,20 @@ def main():
             meta["check"] = {"cmd": "VERIF_REPO=<worktree with patch> VERIF_RUNS=%s ./check %s quick" % (runs, prop), "exit": p.returncode, "lines": [l[:400] for l in lines]}
             meta["detected"] = p.returncode == 1
             print("\n".join(lines)[:3000])
+            # the change may break the property through a path that another property's
+            # profile exercises (genesis import, queues, replicas): try those when missed
+            if not meta["detected"]:
+                for other in also:
+                    if other == prop:
+                        continue
+                    e2 = dict(os.environ, VERIF_REPO=wt, VERIF_RUNS="240")
+                    p2 = subprocess.run(["./check", other, "quick"], cwd="/verif", env=e2, stdout=subprocess.PIPE, stderr=subprocess.STDOUT, text=True)
+                    l2 = [l for l in p2.stdout.splitlines() if l.startswith("VIOLATION") or l.strip().startswith("key:") or "quick:" in l or l.startswith("HARNESS")]
+                    meta.setdefault("other_checks", []).append({"property": other, "exit": p2.returncode, "lines": [l[:300] for l in l2]})
+                    if p2.returncode == 1:
+                        meta["detected_by_other"] = other
+                        print("detected by", other)
+                        break
     finally:
         sh("git -C /repo worktree remove --force %s" % wt, "/")
     if not ok:
